@@ -399,6 +399,17 @@ class CMSSystem(System):
             div = twin_divergence(self, cfg, st, lambda q: self._ro(cfg, q.impl, keys, hf), lambda x: observation(x.impl, kind))
             if div is not None:
                 bad("C19", "cms.queried_twin_diverges_one_step_later", div)
+        bb = call(bytes, f)
+        if bb[0] == "ok":
+            fresh_load = call(lambda: CLASSES[kind].frombytes(bb[1], hash_function=hf, **self._load_kwargs(cfg)))
+            if fresh_load[0] == "ok":
+                def answers(x):
+                    # (str() is left out: it prints the requested confidence / error rate, which a reload re-derives)
+                    return [call(x.check, k) for k in list(keys) + ["absent-1"]] + [call(x.__contains__, keys[0]), x.elements_added]
+
+                if answers(f) != answers(fresh_load[1]):
+                    bad("C19", "cms.answers_independent_of_earlier_queries", {"live": repr(answers(f))[:300],
+                                                                               "fresh_load": repr(answers(fresh_load[1]))[:300], "cls": kind})
         g = self.clone(st).impl
         c = call(g.clear)
         fresh = make(cfg, hf)
